@@ -312,6 +312,20 @@ func (a *Automaton) Run() *Result {
 				if a.Oracle != nil {
 					choice = a.Oracle(ifi, ic.cond)
 				}
+				// a branch on a compile-time constant has one feasible edge
+				if cv, neg := peelNot(ifi.Cond); true {
+					if k, ok := cv.(*ssa.Const); ok && k.Value != nil {
+						t := k.Value.String() == "true"
+						if neg {
+							t = !t
+						}
+						if t {
+							choice = TrueOnly
+						} else {
+							choice = FalseOnly
+						}
+					}
+				}
 				ci, hasCorr := corrIdx[ifi]
 				for e := 0; e < 2; e++ {
 					if (e == 0 && choice == FalseOnly) || (e == 1 && choice == TrueOnly) {
